@@ -767,13 +767,13 @@ fn inputs(prop: &str, seed: u64, w: u32, thorough: bool) -> Inputs {
     match prop {
         "C01" => {
             i.vals = gen::values(&mut r, n, if thorough { 400 } else { 40 });
-            i.pairs = gen::pairs(&mut r, n, if thorough { 1500 } else { 60 });
+            i.pairs = gen::pairs(&mut r, n, if thorough { 1500 } else { 120 });
         }
         "C02" => {
-            i.mul = mul_inputs(&mut r, n, scale(110, 1600));
+            i.mul = mul_inputs(&mut r, n, scale(260, 1600));
         }
         "C03" => {
-            i.div = div_inputs(&mut r, n, scale(110, 1600));
+            i.div = div_inputs(&mut r, n, scale(260, 1600));
         }
         "C08" => {
             i.pow = pow_inputs(&mut r, n, scale(110, 600));
